@@ -171,3 +171,27 @@ Definition holds_C23 (g : graph) (backend : list bnode) (ms : list mnode) : bool
   && forallb (fun b => negb (mem (b_name b) (usable_roots g))) (backend_part ms)
   && list_eqb bnode_eqb (backend_part ms)
        (filter (fun b => negb (mem (b_name b) (usable_roots g))) backend).
+
+(* ---------- several AvailableCommands packets on one backend session ---------- *)
+
+(* one packet: the proxy's graph with the player's requirement outcomes at that moment, and the
+   backend root the packet carries *)
+Definition packet_in := (graph * list bnode)%type.
+
+(* handleAvailableCommands has no state: every packet is merged from what holds when it arrives *)
+Definition announce_session (fuel : nat) (pkts : list packet_in) : list (option (list mnode)) :=
+  map (fun p => announce fuel (fst p) (snd p)) pkts.
+
+(* NOT the code: a handler that filters the proxy tree once, on the first packet of the session,
+   and reuses that view for every later packet (kept to state what C23 excludes) *)
+Definition announce_cached_session (fuel : nat) (pkts : list packet_in) : list (option (list mnode)) :=
+  match pkts with
+  | [] => []
+  | first :: _ =>
+    map (fun p =>
+           match filter_node fuel (fst first) 0 with
+           | Done (Some t) => Some (merge (snd p) (o_children t))
+           | Done None => Some (map MBackend (snd p))
+           | OutOfFuel => None
+           end) pkts
+  end.
